@@ -25,9 +25,9 @@ from btclib.script import taproot
 from btcsim.core.choices import Choices
 from btcsim.gen.objects import MAX_MONEY, Pool, W, blob, compact_size, uint
 
-FORMS = ("p2tr", "p2wsh", "p2sh", "p2sh-p2wsh")
+FORMS = ("p2tr", "p2wsh", "p2sh", "p2sh-p2wsh", "p2tr")  # the script path twice: it has the most to go wrong
 NUMS = bytes.fromhex("50929b74c1a04954b78b4b6035e97a5e078a5a0f28ec96d547bfee9ace803ac0")  # BIP341's unspendable internal key
-LEAF_VERSIONS = (0xC0, 0xC0, 0xC0, 0xC2, 0xFE, 0x00, 0x66, 0x50)
+LEAF_VERSIONS = (0xC0, 0xC0, 0xC0, 0xC0, 0xC0, 0xC2, 0xFE, 0x00, 0x66, 0x50)  # only 0xc0 is executed as tapscript
 # byte values worth meeting in executed position beside the uniform draw: push boundaries, reserved, disabled,
 # NOPs, the tapscript additions, the OP_SUCCESS range and its two ends
 _EDGE_OPS = (
@@ -69,7 +69,7 @@ def _little_scripts(ch: Choices, pool: Pool) -> list[bytes]:
 
 
 def inner_script(ch: Choices, pool: Pool) -> tuple[str, bytes]:
-    kind = ch.pick(["ops", "template", "random"], "script.kind")
+    kind = ch.pick(["ops", "template", "ops", "random"], "script.kind")
     if kind == "random":
         return kind, ch.nbytes(n, "script.bytes") if (n := ch.draw(81, "script.len")) else b""
     if kind == "template":
@@ -79,7 +79,7 @@ def inner_script(ch: Choices, pool: Pool) -> tuple[str, bytes]:
         return kind, bytes(script)
     out = b"\x51" if ch.draw(2, "script.lead") else b""
     for _ in range(1 + ch.draw(4, "script.nops")):
-        out += bytes([ch.pick(_EDGE_OPS, "script.edge") if ch.draw(5, "script.opk") < 2 else ch.draw(256, "script.op")])
+        out += bytes([ch.pick(_EDGE_OPS, "script.edge") if ch.draw(2, "script.opk") else ch.draw(256, "script.op")])
         if ch.draw(3, "script.pushk") == 0:
             out += push(_item(ch, "script.push")[:40], minimal=bool(ch.draw(4, "script.minimal")))
     return kind, out
